@@ -17,7 +17,7 @@ TIMEOUT_MS = {"quick": 60000, "thorough": 300000}
 def tasks(tier):
     ns = [2, 3] if tier == "quick" else [2, 3, 4, 5]
     t = [("t_apply_gbs", {"n_grains": n}) for n in ns]
-    t += [("t_call_site", {"n_grains": 2, "steps": 2})]
+    t += [("t_call_site", {"n_grains": 2, "steps": 2, "regime": rg}) for rg in ("matrix_dislocation", "frictional_yielding", "matrix_diffusion", "min_viscosity", "max_viscosity")]
     if tier == "thorough":
         t += [("t_call_site", {"n_grains": 3, "steps": 3})]
     return t
@@ -85,7 +85,7 @@ def t_apply_gbs(sess, n_grains):
     sample(sess, obligation="floor + renormalise", N=N, f_out0=str(fr[0])[:240])
 
 
-def t_call_site(sess, n_grains, steps):
+def t_call_site(sess, n_grains, steps, regime="matrix_dislocation"):
     """Where and with what the real update calls apply_gbs; what ends up in the stored snapshot."""
     mods = pydrex_modules()
     minerals, utils = mods["minerals"], mods["utils"]
@@ -109,7 +109,9 @@ def t_call_site(sess, n_grains, steps):
         log.clear()
         dlog.clear()
         spy.clear()
-        m, snaps = mh.make_mineral(N, history=2)
+        from .kernel import enums
+
+        m, snaps = mh.make_mineral(N, history=2, regime=getattr(enums()[2], regime))
         mh.assume_valid(snaps)
         params = mh.sym_params(N)
         L = quat.symmat("L")
@@ -119,12 +121,12 @@ def t_call_site(sess, n_grains, steps):
 
     with mh.env(plan, log, derivatives=mh.deriv_stub_factory(dlog, N), extra=[(utils, "apply_gbs", gbs_spy)]):
         paths, info = sym.explore(fn)
-    if len(paths) != 1 or paths[0].exc is not None:
+    if not paths or paths[0].exc is not None:
         raise sym.HarnessError(f"unexpected paths {paths} {info}")
     p = only_path(sess, paths)
     m, snaps, params, start, calls, Fm = p.value
     pc = p.pc
-    tag = f"call site[N={N}]"
+    tag = f"call site[N={N}, {regime}]"
     sess.satisfiable(f"{tag}: reach", pc)
     orig_prove = sess.prove
     first = {}
@@ -157,6 +159,10 @@ def t_call_site(sess, n_grains, steps):
         tot = sum(fcl, R(0))
         sess.prove(f"{tag}: step {k+1}: volumes handed to GBS are the solver's, clipped at 0 and normalised", pc,
                    z3.And(*[eq(c["f_in"][i] * tot, fcl[i]) for i in range(N)]))
+    if not calls:
+        sess.prove = orig_prove
+        sample(sess, obligation="GBS call site", steps=steps, calls=0)
+        return
     last = calls[-1]
     sess.prove(f"{tag}: exactly one snapshot appended", pc, z3.BoolVal(len(m.orientations) == 3 and len(m.fractions) == 3))
     sess.prove(f"{tag}: stored volumes are exactly the last GBS output (renormalisation is the identity on it)", pc, all_eq(m.fractions[-1], last["f_out"]))
@@ -184,21 +190,23 @@ def replay_call_site(case):
         return out
 
     utils.apply_gbs = spy
+    problems = []
     try:
-        m = pydrex.Mineral(n_grains=60, seed=11)
+      for regime in (core.DeformationRegime.matrix_dislocation, core.DeformationRegime.frictional_yielding, core.DeformationRegime.matrix_diffusion, core.DeformationRegime.max_viscosity):
+        f0 = np.random.default_rng(5).dirichlet(np.ones(60) * 0.4)
+        m = pydrex.Mineral(regime=regime, n_grains=60, seed=11, fractions_init=f0)
         params = core.DefaultParams().as_dict()
         params["number_of_grains"] = 60
         params["gbs_threshold"] = 0.5
         L = np.zeros((3, 3))
         L[0, 2] = 2.0
         Fm = np.eye(3)
-        problems = []
-        for step in range(3):
+        for step in range(2):
             start = m.orientations[-1].copy()
             calls.clear()
             Fm = m.update_orientations(params, Fm, lambda t, x: L, (step * 0.3, (step + 1) * 0.3, lambda t: np.zeros(3)))
             if not calls:
-                problems.append("apply_gbs never called")
+                problems.append(f"regime {regime.name}: apply_gbs never called (small grains neither floored nor frozen)")
                 continue
             for k, c in enumerate(calls):
                 if not np.array_equal(c["prev"], start):
